@@ -364,6 +364,22 @@ fn gc_jobs(tier: Tier, jobs: &mut Vec<Job>) {
                         }
                         Err(_) => rec.skip("homo segment table lacks a group"),
                     }
+                    // the heterosegmented builders keep the query order as well
+                    let het = pfile("pcsaft/sauer2014_hetero.json");
+                    match GcPcSaftEosParameters::from_json_segments(&q, sub.clone(), het.clone(), None, IdentifierOption::Name) {
+                        Ok(p) => {
+                            let got: Vec<String> = p.chemical_records.iter().map(|r| r.identifier.name.clone().unwrap_or_default()).collect();
+                            rec.require("query_order", "hetero_eos_from_json_segments", got.iter().map(|s| s.as_str()).collect::<Vec<_>>() == q, || format!("GcPcSaftEosParameters::from_json_segments({q:?}) returns components {got:?}"));
+                        }
+                        Err(_) => rec.skip("hetero segment table lacks a group"),
+                    }
+                    match feos::gc_pcsaft::GcPcSaftFunctionalParameters::from_json_segments(&q, sub.clone(), het.clone(), None, IdentifierOption::Name) {
+                        Ok(p) => {
+                            let got: Vec<String> = p.chemical_records.iter().map(|r| r.identifier.name.clone().unwrap_or_default()).collect();
+                            rec.require("query_order", "hetero_dft_from_json_segments", got.iter().map(|s| s.as_str()).collect::<Vec<_>>() == q, || format!("GcPcSaftFunctionalParameters::from_json_segments({q:?}) returns components {got:?}"));
+                        }
+                        Err(_) => rec.skip("hetero segment table lacks a group"),
+                    }
                 }
                 let dup = vec![n[0], n[1], n[0]];
                 let r = PcSaftParameters::from_json_segments(&dup, sub.clone(), seg.clone(), None, IdentifierOption::Name);
